@@ -142,7 +142,7 @@ PROPS["C06"] = dict(
     tests=[REGRESS(), T("TestBulkhead", (8, 400), (16, 8000))],
     replay_reps=200,
     require_classes=["waited=true", "refused=true", "cancelled=true"],
-    rule="(final phase, in half of the scenarios) with every permit held, 1..4 callers of the standalone AcquirePermit / AcquirePermitWithMaxWait are cancelled while they wait: each returns the context error without a permit, and exactly maxConcurrency permits are available afterwards. rapid-generated bulkhead scenarios: maxConcurrency 1..8, max wait in {0, 1 ms, 50 ms, 1 h}, 0..max permits taken through the standalone API, 2..24 (thorough: 64) concurrent executions (sync/async; bare or with the bulkhead inside retry / an always-firing timeout / a real hedge / a fallback, or outside a retry) in three roles (holders parked on a harness gate inside the function, burst executions, waiters submitted against a full bulkhead), and a generated order of harness actions (open a gate, cancel an execution's context while it waits for or holds a permit, take/release standalone permits); non-trivial = more executions than permits AND at least one waited for a permit, was refused, or was cancelled; distinct = the scenario",
+    rule="maxConcurrency 0..8 (0: a bulkhead that admits nothing); executions may carry a context deadline of 1 us .. 2 ms that expires while they wait for or hold a permit; (final phase, in half of the scenarios) with every permit held, 1..4 callers of the standalone AcquirePermit / AcquirePermitWithMaxWait are cancelled while they wait: each returns the context error without a permit, and exactly maxConcurrency permits are available afterwards. rapid-generated bulkhead scenarios: maxConcurrency 1..8, max wait in {0, 1 ms, 50 ms, 1 h}, 0..max permits taken through the standalone API, 2..24 (thorough: 64) concurrent executions (sync/async; bare or with the bulkhead inside retry / an always-firing timeout / a real hedge / a fallback, or outside a retry) in three roles (holders parked on a harness gate inside the function, burst executions, waiters submitted against a full bulkhead), and a generated order of harness actions (open a gate, cancel an execution's context while it waits for or holds a permit, take/release standalone permits); non-trivial = more executions than permits AND at least one waited for a permit, was refused, or was cancelled; distinct = the scenario",
     assumptions=["the in-flight meter counts function invocations between entry and exit, plus standalone permits counted conservatively, so it never over-estimates what holds a permit",
                  "a bulkhead enclosing a hedge policy is not generated (one permit then covers several attempts by design)",
                  "an execution still unfinished after 30 s is a violation only with evidence (a goroutine blocked in ReleasePermit, or a 1 h waiter stranded after all others finished); otherwise inconclusive"],
@@ -153,7 +153,7 @@ PROPS["C04"] = dict(
     tests=[REGRESS(), T("TestBreakerConcurrent", (8, 500), (16, 8000))],
     replay_reps=200,
     require_classes=["raced-open=true", "raced-trials=true"],
-    rule="rapid-generated breaker scenarios on a frozen virtual clock: count / ratio / count-in-period / rate-in-period thresholds with optional success thresholds; phase A: 2..16 (thorough 32) executions race against the closed breaker while some of their failures trip it (any execution submitted after OnOpen was observed must be refused; in half of the scenarios the OnOpen listener is slow and 4 more executions are submitted while it is still running); phase A2: executions (bare / under retry / under an always-firing timeout / under a fallback, sync and async) against the open breaker; phase B: the clock jumps past the delay and up to 2*capacity+2 trials are submitted one by one (model in lock-step) or all at once (racing for permits), ending by result, error, timeout, cancellation or a rejection further in; parked trials are completed in a generated order with the reference breaker in lock-step; finally the free trial permits are probed; non-trivial = the breaker opened while at least 2 executions were in flight, or more than capacity executions raced for trial permits; distinct = the scenario",
+    rule="the virtual clock starts at 0, 1 or a wall-clock-like reading; one scenario in eight uses a delay near the end of the int64 range (the breaker must stay open while the clock moves on by days); parked trials with identical outcomes may be completed all at once; rapid-generated breaker scenarios on a frozen virtual clock: count / ratio / count-in-period / rate-in-period thresholds with optional success thresholds; phase A: 2..16 (thorough 32) executions race against the closed breaker while some of their failures trip it (any execution submitted after OnOpen was observed must be refused; in half of the scenarios the OnOpen listener is slow and 4 more executions are submitted while it is still running); phase A2: executions (bare / under retry / under an always-firing timeout / under a fallback, sync and async) against the open breaker; phase B: the clock jumps past the delay and up to 2*capacity+2 trials are submitted one by one (model in lock-step) or all at once (racing for permits), ending by result, error, timeout, cancellation or a rejection further in; parked trials are completed in a generated order with the reference breaker in lock-step; finally the free trial permits are probed; non-trivial = the breaker opened while at least 2 executions were in flight, or more than capacity executions raced for trial permits; distinct = the scenario",
     assumptions=["virtual clock injected through circuitbreaker.VerifWithClock (build tag verif); phase B starts only when nothing admitted earlier is in flight, as the property's quantifier says",
                  "the OnOpen listener runs under the breaker's lock, so a flag it sets is ordered before every later admission decision"],
 )
